@@ -387,6 +387,9 @@ class A:
     def clone(self):
         return self.copy()
 
+    def unsqueeze(self, dim):
+        return expand_dims(self, dim)
+
     def nonzero(self):
         return nonzero(self)
 
